@@ -24,10 +24,30 @@ class SymPacked:
     def __len__(self):
         return _s.calcsize(self.order + self.code) * len(self.values)
 
+    def _pat(self, v):
+        if self.code == "d":
+            return v.pattern()
+        sort = _SORT[self.code]
+        return z3.fpToIEEEBV(z3.fpToFP(RNE, v.e, sort))
+
+    def __eq__(self, o):
+        if not isinstance(o, SymPacked):
+            return NotImplemented
+        if o.code != self.code or len(o.values) != len(self.values):
+            return False
+        return SymBool(z3.And(*[self._pat(a) == o._pat(b) for a, b in zip(self.values, o.values)]))
+
+    def __ne__(self, o):
+        r = self.__eq__(o)
+        return r if r is NotImplemented else (SymBool(z3.Not(r.e)) if isinstance(r, SymBool) else not r)
+
+    def __hash__(self):
+        raise Unsupported("hash(SymPacked) at a C boundary")
+
 
 def _round(x: SymFloat, code):
     if code == "d":
-        return x
+        return x  # keeps the tracked bit pattern
     sort = _SORT[code]
     r = z3.fpToFP(RNE, x.e, sort)
     overflow = z3.And(z3.fpIsInf(r), z3.Not(z3.fpIsInf(x.e)))
